@@ -60,6 +60,8 @@ class St:
                 setattr(s.ctx, attr, dict(val) if isinstance(val, dict) else list(val))
         if hasattr(self.ctx, "views"):
             s.ctx.views = {k: list(v) for k, v in self.ctx.views.items()}
+        if hasattr(self.ctx, "callmemo"):
+            s.ctx.callmemo = dict(self.ctx.callmemo)
         s.pc = list(self.pc)
         s.guards = list(self.guards)
         s.handled = list(self.handled)
@@ -70,6 +72,19 @@ class St:
     def assume(self, c):
         self.ctx.assume(c)
         self.pc.append(c)
+        memo = getattr(self.ctx, "memo", None)
+        if memo is None:
+            memo = self.ctx.memo = {}
+        self._record_decided(memo, z3.simplify(c), True)
+
+    def _record_decided(self, memo, c, val):
+        if z3.is_not(c):
+            self._record_decided(memo, c.arg(0), not val)
+            return
+        memo[("decided", c.get_id())] = val
+        if (val and z3.is_and(c)) or (not val and z3.is_or(c)):
+            for ch in c.children():
+                self._record_decided(memo, ch, val)
 
     def feasible(self):
         return self.ex.sol.check() != z3.unsat
@@ -194,7 +209,7 @@ class Executor:
         self.cur_func = "?"
         self.npaths = 0
         self.max_paths = max_paths
-        self.ob_timeout_ms = 5000
+        self.ob_timeout_ms = 1500
         self.merging = True
         self.merge_q = 0
         self.feas_timeout_ms = 300
@@ -376,9 +391,23 @@ class Executor:
 
     # ------------------------------------------------------------ state merging
     def merge_value(self, c, a, b, ctx):
-        """value that equals a when c holds and b otherwise"""
+        """value that equals a when c holds and b otherwise (heap objects keep their
+        identity: the same pair of objects always merges into the same object)"""
         if a is b:
             return a
+        if isinstance(a, (VObj, VDict, VList)):
+            hm = getattr(ctx, "heap_merge", None)
+            if hm is None:
+                hm = ctx.heap_merge = {}
+            k = (id(a), id(b))
+            if k in hm:
+                return hm[k][0]
+            r = self._merge_value(c, a, b, ctx)
+            hm[k] = (r, a, b)
+            return r
+        return self._merge_value(c, a, b, ctx)
+
+    def _merge_value(self, c, a, b, ctx):
         if isinstance(a, VInt) and isinstance(b, VInt):
             if a.t.get_id() == b.t.get_id():
                 return a
@@ -451,7 +480,14 @@ class Executor:
             d = {}
             for sx in (s2, s1):
                 d.update(getattr(sx.ctx, attr, {}) or {})
+            # decisions taken inside an arm hold on that arm only
+            d1, d2 = getattr(s1.ctx, attr, {}) or {}, getattr(s2.ctx, attr, {}) or {}
+            for k in [k for k in d if isinstance(k, tuple) and k and k[0] in ("decided", "split")]:
+                if not (k in d1 and k in d2 and d1[k] == d2[k]):
+                    del d[k]
             setattr(m.ctx, attr, d)
+        cm1, cm2 = getattr(s1.ctx, "callmemo", {}) or {}, getattr(s2.ctx, "callmemo", {}) or {}
+        m.ctx.callmemo = {k: v for k, v in cm1.items() if k in cm2 and cm2[k] is v}
         m.ctx.views = {}
         for sx in (s1, s2):
             for k, lst in (getattr(sx.ctx, "views", {}) or {}).items():
@@ -542,6 +578,14 @@ class Executor:
             yield vals, st
             return
         v = vals[i]
+        if st.guards:
+            # inside a non-forking boolean: the value must not be None here (else the real code
+            # raises TypeError/AttributeError) -- an obligation under the current guards
+            self.oblige(st, "optional-is-not-None", "safety", z3.Not(v.isnone), None, {"exception": "TypeError"})
+            nv = list(vals)
+            nv[i] = v.val
+            yield from self.force(st, nv, i + 1)
+            return
         for b, s2 in self.branch(st, v.isnone):
             nv = list(vals)
             nv[i] = NONE if b else v.val
@@ -553,6 +597,12 @@ class Executor:
         memo = getattr(st.ctx, "memo", None)
         if memo is None:
             memo = st.ctx.memo = {}
+        cs = z3.simplify(cond)
+        neg = z3.is_not(cs)
+        d = memo.get(("decided", (cs.arg(0) if neg else cs).get_id()))
+        if d is not None:
+            d = (not d) if neg else d
+            return (True, False) if d else (False, True)
         key = ("split", cond.get_id())
         if key in memo:
             return True, True
@@ -586,30 +636,42 @@ class Executor:
                 yield (t if isinstance(t, Raised) else z3.Not(t)), s2
             return
         if isinstance(e, ast.BoolOp):
-            is_and = isinstance(e.op, ast.And)
-            terms = []
-            ok = True
-            pushed = 0
-            try:
-                for sub in e.values:
-                    outs = list(self.eval_cond(sub, st))
-                    if len(outs) != 1 or isinstance(outs[0][0], Raised) or outs[0][1] is not st:
-                        ok = False
-                        break
-                    t = outs[0][0]
-                    terms.append(t)
-                    st.guards.append(t if is_and else z3.Not(t))
-                    pushed += 1
-            finally:
-                for _ in range(pushed):
-                    st.guards.pop()
-            if ok:
-                yield (z3.And(terms) if is_and else z3.Or(terms)), st
-                return
-            if terms:
-                raise Unsupported(f"boolean operator with a forking operand after a non-forking one at {self.where(e)}")
+            yield from self._cond_seq(e.values, 0, st, isinstance(e.op, ast.And), e)
+            return
         for v, s2 in self.eval(e, st):
             yield (v if isinstance(v, Raised) else self.truth(s2, v)), s2
+
+    def _cond_seq(self, vals, i, st, is_and, node):
+        for t, s2 in self.eval_cond(vals[i], st):
+            if isinstance(t, Raised) or i == len(vals) - 1:
+                yield t, s2
+                continue
+            ct = z3.simplify(t)
+            if z3.is_true(ct) or z3.is_false(ct):
+                if z3.is_true(ct) == is_and:
+                    yield from self._cond_seq(vals, i + 1, s2, is_and, node)
+                else:
+                    yield z3.BoolVal(not is_and), s2
+                continue
+            # first try to evaluate the remaining operands without forking, under the guard
+            s2.guards.append(t if is_and else z3.Not(t))
+            nob = len(self.obligations)
+            try:
+                outs = list(self._cond_seq(vals, i + 1, s2, is_and, node))
+            except Unsupported:
+                outs = None
+            finally:
+                s2.guards.pop()
+            if outs is not None and len(outs) == 1 and not isinstance(outs[0][0], Raised) and outs[0][1] is s2:
+                r = outs[0][0]
+                yield (z3.And(t, r) if is_and else z3.Or(t, r)), s2
+                continue
+            del self.obligations[nob:]          # the attempt is repeated properly below
+            for b, s3 in self.branch(s2, t):
+                if b == is_and:
+                    yield from self._cond_seq(vals, i + 1, s3, is_and, node)
+                else:
+                    yield z3.BoolVal(not is_and), s3
 
     def e_Constant(self, e, st):
         if e.value is Ellipsis:
@@ -630,7 +692,25 @@ class Executor:
         raise Unsupported(f"unbound name {name}")
 
     def e_Name(self, e, st):
-        yield self.lookup(e.id, st), st
+        v = self.lookup(e.id, st)
+        if isinstance(v, VOpt) and not st.guards:
+            v = self.resolve_opt(st, v)
+            st.env[e.id] = v
+        yield v, st
+
+    def resolve_opt(self, st, v):
+        """a merged optional whose None-ness the path already decides is replaced by its case"""
+        c = z3.simplify(v.isnone)
+        if z3.is_true(c):
+            return NONE
+        if z3.is_false(c):
+            return v.val
+        f1, f2 = self.split2(st, c)
+        if f1 and not f2:
+            return NONE
+        if f2 and not f1:
+            return v.val
+        return v
 
     def e_Tuple(self, e, st):
         for items, s2 in self.eval_list(e.elts, st):
@@ -670,18 +750,17 @@ class Executor:
             if isinstance(items, Raised):
                 yield items, s2
                 continue
-            if any(isinstance(x, VOpt) for x in items):
-                raise Unsupported("f-string of a merged optional value")
-            strs = []
-            for p, v in zip(parts, items):
-                if isinstance(p, ast.FormattedValue):
-                    if p.conversion != -1 or p.format_spec is not None:
-                        strs.append(self.fmt_opaque(s2, v, p))
+            for fitems, s3 in self.force(s2, items):
+                strs = []
+                for p, v in zip(parts, fitems):
+                    if isinstance(p, ast.FormattedValue):
+                        if p.conversion != -1 or p.format_spec is not None:
+                            strs.append(self.fmt_opaque(s3, v, p))
+                        else:
+                            strs.append(self.to_str(s3, v))
                     else:
-                        strs.append(self.to_str(s2, v))
-                else:
-                    strs.append(v)
-            yield V.concat(s2.ctx, strs), s2
+                        strs.append(v)
+                yield V.concat(s3.ctx, strs), s3
 
     def fmt_opaque(self, st, v, p):
         # formatted with !r or a format spec: only used in error messages
@@ -903,6 +982,14 @@ class Executor:
         if isinstance(l, VObj) and isinstance(r, VObj):
             if l is r:
                 return z3.BoolVal(True)
+            if {l.cls, r.cls} <= {"URL", "U"}:
+                def parts(o):
+                    pre = "_" if o.cls == "URL" else ""
+                    return [o.fields.get(pre + k) for k in ("scheme", "netloc", "path", "query", "fragment")]
+                lp, rp = parts(l), parts(r)
+                if any(x is None for x in lp + rp):
+                    return z3.BoolVal(False)     # a slot was never assigned
+                return z3.And([self.equal(st, a, b) for a, b in zip(lp, rp)])
         raise Unsupported(f"equality of {l!r} and {r!r}")
 
     def contains(self, st, container, item):
@@ -1094,7 +1181,61 @@ class Executor:
                 yield base, s2
             else:
                 for fv, s3 in self.force(s2, [base]):
-                    yield self.getattr(s3, fv[0], e.attr, e), s3
+                    b = fv[0]
+                    if isinstance(b, VObj) and e.attr not in b.fields:
+                        prop = self.lookup_property(b, e.attr)
+                        if prop is not None:
+                            yield from self.read_property(s3, b, e.attr, prop, e)
+                            continue
+                    yield self.getattr(s3, b, e.attr, e), s3
+
+    # ---- objects of repository classes (yarl.URL): slots + per-object memo --------------
+    def class_object(self, clsname):
+        if clsname == "URL":
+            import yarl._url
+            return yarl._url.URL
+        raise Unsupported(f"class {clsname}")
+
+    def class_modsrc(self, clsname):
+        if clsname == "URL":
+            return ModuleSrc.get("yarl._url")
+        return None
+
+    def lookup_property(self, obj, name):
+        """AST of a (cached) property of the object's class, or None"""
+        ms = self.class_modsrc(obj.cls)
+        if ms is None:
+            return None
+        node = ms.funcs.get(f"{obj.cls}.{name}")
+        if node is None:
+            return None
+        for d in node.decorator_list:
+            dn = d.id if isinstance(d, ast.Name) else getattr(d, "attr", None)
+            if dn in ("cached_property", "property", "under_cached_property"):
+                return node
+        return None
+
+    def read_property(self, st, obj, name, node, at):
+        """obj.<cached property>: the memo entry if the object's cache (a dict built in this
+        activation) has one, else the value its body computes from the object (propcache's
+        under_cached_property is trusted to implement exactly this memo; that pre-filled and
+        lazily computed entries agree is obligation C09)."""
+        cache = obj.fields.get("_cache")
+        if isinstance(cache, VDict) and name in cache.d:
+            yield cache.d[name], st
+            return
+        ms = self.class_modsrc(obj.cls)
+        f = UserFn(ms, node, f"{obj.cls}.{name}", self_obj=obj)
+        yield from self.call_user(st, f, [], {}, at)
+
+    def class_attr(self, obj, name):
+        ms = self.class_modsrc(obj.cls)
+        if ms is None:
+            return None
+        node = ms.funcs.get(f"{obj.cls}.{name}")
+        if node is not None:
+            return UserFn(ms, node, f"{obj.cls}.{name}", self_obj=obj)
+        return None
 
     def getattr(self, st, base, name, node=None):
         if isinstance(base, VObj):
@@ -1116,9 +1257,6 @@ class Executor:
         if isinstance(base, VInt) and name in ("real",):
             return base
         raise Unsupported(f"attribute {name} of {base!r}")
-
-    def class_attr(self, obj, name):
-        return None
 
     def e_Call(self, e, st):
         kwnames = [k.arg for k in e.keywords]
@@ -1155,6 +1293,18 @@ class Executor:
             if isinstance(obj, type) and issubclass(obj, BaseException):
                 yield VExc(obj, args), st
                 return
+            if isinstance(obj, type) and obj.__module__.startswith("contracts") and hasattr(obj, "__slots__"):
+                fields = dict(zip(obj.__slots__, args))
+                fields.update(kwargs)
+                yield VObj(obj.__name__, fields, fresh=True), st
+                return
+            if getattr(obj, "__name__", None) == "get" and isinstance(getattr(obj, "__self__", None), dict):
+                yield self.const_dict_get(st, obj.__self__, args[0], args[1] if len(args) > 1 else NONE), st
+                return
+            if obj is object.__new__:
+                cls = args[0].obj
+                yield VObj(cls.__name__, {}, fresh=True), st
+                return
             p = self.native_by_id.get(id(obj))
             if p is not None:
                 yield from p.fn(self, st, args, kwargs, node)
@@ -1170,6 +1320,18 @@ class Executor:
                 return
             raise Unsupported(f"call of native {obj!r} at {self.where(node)}")
         raise Unsupported(f"call of {f!r} at {self.where(node)}")
+
+    def const_dict_get(self, st, d, key, default):
+        """<module-level dict>.get(symbolic str key[, default]) for a small constant table"""
+        if isinstance(key, VStr) and key.conc is not None:
+            return self.wrap(d[key.conc]) if key.conc in d else default
+        if not isinstance(key, VStr) or not all(isinstance(k, str) for k in d):
+            raise Unsupported("dict.get with this key type")
+        res = default
+        for k, v in reversed(list(d.items())):
+            c = V.str_eq(st.ctx, key, lit(k))
+            res = self.merge_value(c, self.wrap(v), res, st.ctx)
+        return res
 
     def unwrap(self, v):
         if isinstance(v, VNone):
@@ -1237,12 +1399,24 @@ class Executor:
         """call of a repo function: through its contract if it has one, else inlined"""
         qual = f"{f.modsrc.modname}:{f.qual}"
         c = self.contracts.get(qual)
+        if c is None:
+            c = self.spec_contract(f)
+            if c is not None and c.qual == getattr(self, "verifying", None):
+                c = None
+            elif c is not None and not c.opaque:
+                c = None
         if c is not None and qual != getattr(self, "verifying", None):
             self.called_contracts.add(qual)
-            yield from c.apply(self, st, args, kwargs, node, f)
+            full = ([f.self_obj] if f.self_obj is not None else []) + list(args)
+            yield from c.apply(self, st, full, kwargs, node, f)
             return
         if f.modsrc.modname.startswith("yarl"):
             self.inlined.add(qual)
+        elif f.modsrc.modname.startswith("contracts") and f.self_obj is None:
+            # specification calling a specification: pure, summarised per path
+            from .verify import call_spec
+            yield from call_spec(self, st, f, args, kwargs, node)
+            return
         yield from self.run_function(st, f, args, kwargs, node)
 
     def run_function(self, st, f, args, kwargs, node=None):
@@ -1281,6 +1455,17 @@ class Executor:
                     self.cur_func, self.cur_file = callee
         finally:
             self.cur_func, self.cur_file = saved
+
+    def spec_contract(self, f):
+        """the contract whose specification is the function f (a spec calling another spec
+        uses the same opaque summary as the code calling the real function)"""
+        idx = getattr(self, "_spec_index", None)
+        if idx is None:
+            idx = self._spec_index = {}
+            for c in self.contracts.values():
+                if c.spec is not None:
+                    idx[(c.spec.__module__, c.spec.__qualname__)] = c
+        return idx.get((f.modsrc.modname, f.qual))
 
     def run_range(self, st, f, env, start, end):
         """execute the top-level statements body[start:end] of f in `env` (already bound);
